@@ -90,24 +90,42 @@ def check_bounds(ctx):
             raise AnalysisError("optional numeric bounds %s of %s are not checked in its own _validate" % (sorted(bounds), c.name))
         g = an.cfg(v)
         reach = reachable_from_entry(an, v)
+        # every ordering comparison of the function, wherever it is written: as the test itself or inside the definition of
+        # a flag that is tested later (`too_small = lower is not None and num < lower` ... `if too_small:`)
+        from engine.flow import guard_atoms
+        sites = []          # (Compare, the CFG node it is evaluated at)
+        for n_ in g.nodes:
+            if n_ not in reach or n_.ast is None:
+                continue
+            if n_.kind == "test" and isinstance(n_.ast, ast.Compare):
+                sites.append((n_.ast, n_))
+            elif n_.kind == "assign" and isinstance(n_.ast, (ast.Assign, ast.AnnAssign)) and n_.ast.value is not None:
+                sites += [(x, n_) for x in ast.walk(n_.ast.value) if isinstance(x, ast.Compare)]
+        # what is known to hold where the function rejects: the outcome of each comparison on the way to a raise
+        rejecting = {}
+        presence = {}
+        for r_ in [n_ for n_ in g.nodes if n_.kind == "raise" and n_ in reach]:
+            atoms_ = guard_atoms(an, v, r_)
+            for e_, truth_, t_ in atoms_:
+                if isinstance(e_, ast.Compare):
+                    rejecting.setdefault(id(e_), (truth_, atoms_, t_))
         for attr in sorted(bounds):
             cmps = []
-            for t in g.nodes:
-                if t.kind != "test" or t not in reach or not isinstance(t.ast, ast.Compare) or len(t.ast.ops) != 1:
+            for cmp_, at_ in sites:
+                if len(cmp_.ops) != 1:
                     continue
-                tx = expanded(v, t)
+                tx = expand_aliases(v, cmp_, at_)
                 sides = [tx.left, tx.comparators[0]]
                 idx = [i for i, s in enumerate(sides) if isinstance(s, ast.Attribute) and s.attr == attr
                        and isinstance(s.value, ast.Name) and s.value.id == v.self_name]
                 if idx and isinstance(tx.ops[0], (ast.Lt, ast.LtE, ast.Gt, ast.GtE)):
-                    cmps.append((t, idx[0]))
+                    cmps.append(((cmp_, at_, tx), idx[0]))
             if not cmps:
                 ctx.ob("bound.checked", v, "self.%s" % attr, False,
                        "the optional bound %s.%s is declared but never compared in _validate" % (c.name, attr))
                 continue
-            for t, pos in cmps:
+            for (cmp_, t, tx), pos in cmps:
                 ninst += 1
-                tx = expanded(v, t)
                 q = tx.comparators[0] if pos == 0 else tx.left
                 op = tx.ops[0]
                 # normalise to  Q <op> bound
@@ -117,21 +135,15 @@ def check_bounds(ctx):
                 if kind is None:
                     raise AnalysisError("cannot tell whether %s.%s is a lower or an upper bound" % (c.name, attr))
                 # which edge rejects?
-                rej = None
-                for lbl in (True, False):
-                    for s, l2 in t.succ:
-                        if l2 is lbl:
-                            p = g.path(s, lambda n: n.kind == "raise", may_raise=lambda n: False, stop=lambda n: n.kind in ("test", "return"))
-                            if s.kind == "raise" or p:
-                                rej = lbl
+                rej = rejecting.get(id(cmp_), (None, [], None))[0]
                 if rej is None:
-                    ctx.ob("bound.rejects", v, t.ast, False, "the comparison with self.%s does not lead to a rejection" % attr, node=t)
+                    ctx.ob("bound.rejects", v, cmp_, False, "the comparison with self.%s does not lead to a rejection" % attr, node=t)
                     continue
                 eff = type(op)
                 if rej is False:
                     eff = {ast.Lt: ast.GtE, ast.GtE: ast.Lt, ast.Gt: ast.LtE, ast.LtE: ast.Gt}[eff]
                 want = ast.Lt if kind == "lower" else ast.Gt
-                ctx.ob("bound.strict-comparator", v, t.ast, eff is want,
+                ctx.ob("bound.strict-comparator", v, cmp_, eff is want,
                        "rejects iff value %s self.%s: the bound itself is accepted (inclusive, as documented)" % ("<" if kind == "lower" else ">", attr)
                        if eff is want else
                        "rejects when value %s self.%s: the %s bound %s" % (
@@ -140,8 +152,8 @@ def check_bounds(ctx):
                        node=t)
                 # presence guard
                 form = None
-                for d, tr in dominating_guards(an, v, t):
-                    e = expanded(v, d)
+                known = [(expand_aliases(v, e_, t_), tr_) for e_, tr_, t_ in rejecting[id(cmp_)][1] if e_ is not cmp_]
+                for e, tr in known:
                     if isinstance(e, ast.Compare) and len(e.ops) == 1 and isinstance(e.left, ast.Attribute) and e.left.attr == attr \
                             and isinstance(e.comparators[0], ast.Constant) and e.comparators[0].value is None:
                         if (isinstance(e.ops[0], ast.IsNot) and tr) or (isinstance(e.ops[0], ast.Is) and not tr):
@@ -149,12 +161,12 @@ def check_bounds(ctx):
                     elif isinstance(e, ast.Attribute) and e.attr == attr and tr and form is None:
                         form = "truthiness"
                 if form is None:
-                    ctx.ob("bound.none-guard", v, t.ast, False, "self.%s is compared without a None test (TypeError when the bound is not given)" % attr, node=t)
+                    ctx.ob("bound.none-guard", v, cmp_, False, "self.%s is compared without a None test (TypeError when the bound is not given)" % attr, node=t)
                 elif form == "is not None":
-                    ctx.ob("bound.none-guard", v, t.ast, True, "guarded by `self.%s is not None`: a bound of 0 is honoured" % attr, node=t)
+                    ctx.ob("bound.none-guard", v, cmp_, True, "guarded by `self.%s is not None`: a bound of 0 is honoured" % attr, node=t)
                 else:
                     vac = kind == "lower" and nonneg_quantity(q)
-                    ctx.ob("bound.none-guard", v, t.ast, vac,
+                    ctx.ob("bound.none-guard", v, cmp_, vac,
                            "truthiness guard accepted: a lower bound of 0 on the non-negative quantity %s is vacuous" % ast.unparse(q) if vac else
                            "`if self.%s and ...` skips the check when the bound is 0: %s(%s=0) accepts every value" % (attr, c.name, bounds[attr]),
                            node=t)
@@ -571,22 +583,29 @@ def check_bool_number(ctx):
     rej_bool = not spb_.normal_returns() and not spb_.falls_off() and bool(spb_.raises())
     ctx.ob("number.rejects-bool", nv, "isinstance(value, bool) -> raise", rej_bool, "True/False are not accepted as numbers" if rej_bool else
            "NumberField accepts bool values as numbers")
-    conv = [n for n in g.nodes if n.kind == "call" and isinstance(n.ast.func, ast.Attribute) and n.ast.func.attr == "type_cls"]
+    from .common import called_attr
+    conv = [n for n in g.nodes if n.kind == "call" and called_attr(nv, n.ast, n) == "type_cls"]
     okr = bool(conv)
     for r in returns_of(an, nv):
         srcs = value_sources(nv, r.ast.value, r)
-        okr = okr and all(k == "expr" and isinstance(pl, ast.Call) and isinstance(pl.func, ast.Attribute) and pl.func.attr == "type_cls" for k, pl in srcs)
+        okr = okr and all(k == "expr" and isinstance(pl, ast.Call) and called_attr(nv, pl) == "type_cls" for k, pl in srcs)
     ctx.ob("number.returns-converted", nv, "return type_cls(value)", okr, "returns the converted number (the bounds are checked on it)" if okr else
            "NumberField does not return the converted number")
+    cmp_sites = []
     for t in g.nodes:
-        tx = expanded(nv, t) if t.kind == "test" and isinstance(t.ast, ast.Compare) else None
-        if tx is not None and any(isinstance(x, ast.Attribute) and x.attr in ("min", "max") for x in ast.walk(tx)) \
+        if t.kind == "test" and isinstance(t.ast, ast.Compare):
+            cmp_sites.append((t.ast, t))
+        elif t.kind == "assign" and isinstance(t.ast, (ast.Assign, ast.AnnAssign)) and t.ast.value is not None:
+            cmp_sites += [(x, t) for x in ast.walk(t.ast.value) if isinstance(x, ast.Compare)]
+    for cmp_, t in cmp_sites:
+        tx = expand_aliases(nv, cmp_, t)
+        if len(cmp_.ops) == 1 and any(isinstance(x, ast.Attribute) and x.attr in ("min", "max") for x in ast.walk(tx)) \
                 and isinstance(tx.ops[0], (ast.Lt, ast.Gt, ast.LtE, ast.GtE)):
             qi = 0 if not isinstance(tx.left, ast.Attribute) else 1
-            q = t.ast.left if qi == 0 else t.ast.comparators[0]
-            okq = isinstance(q, ast.Name) and all(k == "expr" and isinstance(pl, ast.Call) and isinstance(pl.func, ast.Attribute) and pl.func.attr == "type_cls"
+            q = cmp_.left if qi == 0 else cmp_.comparators[0]
+            okq = isinstance(q, ast.Name) and all(k == "expr" and isinstance(pl, ast.Call) and called_attr(nv, pl) == "type_cls"
                                                   for k, pl in value_sources(nv, q, t))
-            ctx.ob("number.bounds-on-converted", nv, t.ast, okq, "bounds are compared with the converted number" if okq else
+            ctx.ob("number.bounds-on-converted", nv, cmp_, okq, "bounds are compared with the converted number" if okq else
                    "bounds are compared with the unconverted input (a numeric string escapes the bound)", node=t)
 
 
